@@ -197,3 +197,104 @@ Qed.
 
 Example quad_valid_example : quad_valid [] (A 5 2 3 []) /\ compact_valid [] (A 127 128 0 []).
 Proof. unfold quad_valid, compact_valid, coords_ok. cbn. repeat split; lia. Qed.
+(* ------------------------------------------------------------------ one database per level (without bulk loads) *)
+Section LevelRefine.
+  Variable p : bparams.
+  Variable d0 : dims.
+
+  Notation V := (sql_valid d0).
+  Let Hinj : @key_inj_on (Z * Z * Z) V Z3_eqb coord_of.
+  Proof. apply key_inj_on_intro; [apply Z3_eqb_eq | intros a b; apply coord_of_inj]. Qed.
+
+  Notation dimg := (img coord_of V).
+
+  Definition linv (s : ldb) : Prop := forall l, dimg (ldb_get s l).
+  Definition lrel (s : ldb) (m : smap) : Prop := forall a, V a -> db_get (ldb_get s (az a)) (coord_of a) = m a.
+
+  Lemma ldb_get_set : forall s l d l', ldb_get (ldb_set s l d) l' = if Z.eqb l l' then d else ldb_get s l'.
+  Proof.
+    induction s as [|[k e] s IH]; intros l d l'; cbn [ldb_set ldb_get].
+    - destruct (Z.eqb l l'); reflexivity.
+    - destruct (Z.eqb_spec k l) as [->|N]; cbn [ldb_get].
+      + destruct (Z.eqb l l'); reflexivity.
+      + rewrite IH. destruct (Z.eqb_spec k l') as [->|N2]; [|reflexivity].
+        destruct (Z.eqb_spec l l'); [congruence | reflexivity].
+  Qed.
+
+  Lemma db_get_put : forall D a b v, dimg D -> V a -> V b ->
+    db_get (db_put D (coord_of a) v) (coord_of b) = if addr_eqb b a then Some v else db_get D (coord_of b).
+  Proof.
+    intros D a b v Hi Va Vb. unfold db_get, db_put, kv_put. cbn [kv_get].
+    rewrite (Hinj a b Va Vb), (addr_eqb_sym a b). destruct (addr_eqb b a) eqn:E; [reflexivity|].
+    rewrite (kv_get_del Z3_eqb coord_of V Hinj) by assumption. rewrite E. reflexivity.
+  Qed.
+
+  Lemma lput_ok : forall s m a b, linv s -> V a -> lrel s m ->
+    linv (lput s a b) /\ lrel (lput s a b) (supd m a (Some b)).
+  Proof.
+    intros s m a b Hi Va Hr. unfold lput. split.
+    - intros l. rewrite ldb_get_set. destruct (Z.eqb (az a) l); [|apply Hi].
+      apply (img_put Z3_eqb coord_of V); [apply Hi | exact Va].
+    - intros a' Va'. rewrite ldb_get_set. unfold supd. destruct (Z.eqb_spec (az a) (az a')) as [E|N].
+      + rewrite db_get_put; try assumption; [|apply Hi].
+        destruct (addr_eqb a' a); [reflexivity|]. rewrite E. apply Hr. exact Va'.
+      + destruct (addr_eqb a' a) eqn:E2; [apply addr_eqb_eq in E2; subst; contradiction|]. apply Hr. exact Va'.
+  Qed.
+
+  Lemma lput_fold_ok : forall (l : list (addr * bytes)) s m, Forall V (map fst l) -> linv s -> lrel s m ->
+    linv (fold_left (fun s ab => lput s (fst ab) (snd ab)) l s) /\
+    lrel (fold_left (fun s ab => lput s (fst ab) (snd ab)) l s) (fold_left (fun m ab => supd m (fst ab) (Some (snd ab))) l m).
+  Proof.
+    induction l as [|[a v] l IH]; intros s m Hv Hi Hr; cbn [fold_left]; [split; assumption|].
+    cbn [map fst snd] in *. inversion Hv; subst. destruct (lput_ok s m a v) as [Hi' Hr']; try assumption.
+    apply IH; assumption.
+  Qed.
+
+  Lemma lremove_ok : forall s m a, linv s -> V a -> lrel s m ->
+    linv (ldb_set s (az a) (db_del (ldb_get s (az a)) (coord_of a))) /\
+    lrel (ldb_set s (az a) (db_del (ldb_get s (az a)) (coord_of a))) (supd m a None).
+  Proof.
+    intros s m a Hi Va Hr. split.
+    - intros l. rewrite ldb_get_set. destruct (Z.eqb (az a) l); [|apply Hi].
+      apply (img_del Z3_eqb coord_of V). apply Hi.
+    - intros a' Va'. rewrite ldb_get_set. unfold supd. destruct (Z.eqb_spec (az a) (az a')) as [E|N].
+      + unfold db_get, db_del. rewrite (kv_get_del Z3_eqb coord_of V Hinj); try assumption; [|apply Hi].
+        destruct (addr_eqb a' a); [reflexivity|]. rewrite E. apply Hr. exact Va'.
+      + destruct (addr_eqb a' a) eqn:E2; [apply addr_eqb_eq in E2; subst; contradiction|]. apply Hr. exact Va'.
+  Qed.
+
+  Lemma lsql_run_refines : forall ops s m, ops_ok V ops -> Forall no_bulk_load ops -> linv s -> lrel s m ->
+    snd (lsql_run p s ops) = snd (spec_run m ops).
+  Proof.
+    induction ops as [|o r IH]; intros s m Hok Hnb Hi Hr; [reflexivity|].
+    inversion Hok as [|? ? Ho Hrest]; inversion Hnb as [|? ? Hn Hnrest]; subst. cbn [lsql_run spec_run].
+    assert (S : snd (lsql_step p s o) = snd (spec_step m o) /\
+                linv (fst (lsql_step p s o)) /\ lrel (fst (lsql_step p s o)) (fst (spec_step m o))).
+    { unfold op_ok in Ho. destruct o as [a b|l|a|l|a|a]; cbn [lsql_step spec_step fst snd op_addrs] in *.
+      - inversion Ho; subst. split; [reflexivity|]. apply lput_ok; assumption.
+      - split; [reflexivity|]. apply lput_fold_ok; assumption.
+      - inversion Ho; subst. rewrite (Hr a) by assumption. split; [reflexivity|]. split; assumption.
+      - contradiction.
+      - inversion Ho; subst. rewrite (Hr a) by assumption. split; [reflexivity|]. split; assumption.
+      - inversion Ho; subst. split; [reflexivity|]. apply lremove_ok; assumption. }
+    destruct S as [E1 [Hi' Hr']].
+    destruct (lsql_step p s o) as [s' x]. destruct (spec_step m o) as [m' x']. cbn [fst snd] in *. subst x'.
+    specialize (IH s' m' Hrest Hnrest Hi' Hr').
+    destruct (lsql_run p s' r) as [s'' xs]. destruct (spec_run m' r) as [m'' xs']. cbn [snd] in *. subst. reflexivity.
+  Qed.
+End LevelRefine.
+
+Theorem level_sql_refines_partial : forall d0 ops, ops_ok (sql_valid d0) ops -> Forall no_bulk_load ops ->
+  model_outs BSqlite ops = spec_outs ops /\ model_outs BGpkgLevel ops = spec_outs ops.
+Proof.
+  intros d0 ops Hok Hnb. unfold model_outs, spec_outs.
+  split; apply (lsql_run_refines _ d0); try assumption;
+    try (intros l; cbn [ldb_get]; constructor); intros a _; reflexivity.
+Qed.
+
+Example level_history_example :
+  let ops := [Store (A 1 1 2 []) [1]; Store (A 1 1 3 []) [2]; Store (A 0 0 0 []) [3]; Remove (A 1 1 2 []);
+              Load (A 1 1 3 []); Load (A 1 1 2 []); IsCached (A 0 0 0 [])] in
+  ops_ok (sql_valid []) ops /\ Forall no_bulk_load ops /\
+  model_outs BSqlite ops = [ODone; ODone; ODone; ODone; OLoad (Some [2]); OLoad None; OCached true].
+Proof. repeat split; try (repeat constructor). Qed.
